@@ -209,7 +209,12 @@ func (fx *FuncExec) Load(st *State, l *Loc) Val {
 		h := fx.heapTerm(st, key, string(s), l.T)
 		// globals of other packages keep their own package for the frame rule
 		fx.heapInfos[key].pkgs = []string{l.Global.Pkg.Pkg.Path()}
-		return fx.loaded(Val{T: l.T, S: h, Sort: s})
+		gv := fx.loaded(Val{T: l.T, S: h, Sort: s})
+		if s == SIface && !strings.HasPrefix(l.Global.Pkg.Pkg.Path(), "github.com/lmorg/murex") && types.Identical(l.T, types.Universe.Lookup("error").Type()) {
+			// exported error values of the standard library (io.EOF, io.ErrClosedPipe ...) are never nil (A3)
+			fx.em.Assert(not(eq("(i.tag "+gv.S+")", "0")))
+		}
+		return gv
 	case LPtr:
 		return fx.Deref(st, Val{T: l.PT, S: l.Ref, Sort: SInt})
 	}
